@@ -534,3 +534,49 @@ func verifH_C18_byte_slices() {
 	verifAssert(ref.Value.VisitJSON(enc) == nil, "C18 byte slices: the generated schema accepts the encoding (base64 strings for slices of bytes, numbers for a byte array)")
 	verifReach("end")
 }
+
+type verifThing struct {
+	N int32 `json:"n"`
+}
+
+// a reference wrapper in the library's own style: name ending in Ref, fields Ref and Value
+type verifThingRef struct {
+	Ref   string      `json:"$ref,omitempty"`
+	Value *verifThing `json:"value,omitempty"`
+}
+
+type verifHolder struct {
+	T verifThingRef `json:"t"`
+	L []verifDir    `json:"l"`
+}
+
+//verif:harness id=C15 tier=quick,thorough witness=end bounds="schema generation for further types under the footprint monitor: a struct holding a reference wrapper in the library's style (name ending in Ref with fields Ref and Value), recursive types through slices and maps, a named recursive slice and map, byte slices, each with no options / component export / a type name generator, generated twice (same and different caller maps): no write to anything shared outside the type table's lock"
+func verifH_C15_gen_types() {
+	_, _ = NewSchemaRefForValue(&verifInner{}, nil)
+	var opts []Option
+	switch verifChoose("options", 3) {
+	case 1:
+		opts = append(opts, CreateComponentSchemas(ExportComponentSchemasOptions{ExportComponentSchemas: true}))
+	case 2:
+		opts = append(opts, CreateTypeNameGenerator(func(t reflect.Type) string { return "pre_" + t.Name() }))
+	}
+	var v any
+	switch verifChoose("type", 5) {
+	case 0:
+		v = &verifHolder{}
+	case 1:
+		v = &verifDir{}
+	case 2:
+		v = verifRecSlice{}
+	case 3:
+		v = verifRecMap{}
+	case 4:
+		v = &verifBytes{}
+	}
+	comps := openapi3.Schemas{}
+	verifSharedBegin()
+	_, _ = NewSchemaRefForValue(v, comps, opts...)
+	_, _ = NewSchemaRefForValue(v, openapi3.Schemas{}, opts...)
+	verifSharedEnd()
+	verifReach("end")
+}
